@@ -13,8 +13,13 @@ package paths
 // zero=interior  additionally zero-weight edges between other nodes, laid out along a
 //                random node order so that every zero-weight cycle passes through the
 //                goal
+// MoveTo (not for zero=interior): at the start of a round the robot may move by MoveTo to
+// the node one or two edges ahead on the planner's own Path() (event "dmove", kind "plan",
+// Path() logged again afterwards), then comes the Step: every epoch is MoveTo* Step*. Now and
+// then it is moved to an arbitrary node (kind "jump"); then nothing is asked before the next
+// UpdateWorld, which is forced to carry a change.
 // The class of every world is stated in its "graph" event and checked by the
-// specification. A call that does not return within the watchdog limit is a failure
+// specification, and so is the shape of the history (gEp in ShortestPathTrace.tla). A call that does not return within the watchdog limit is a failure
 // with its own signature (...:hang) and ends the recording (the goroutine is leaked
 // and may allocate without bound).
 
@@ -54,7 +59,7 @@ type dhist struct {
 }
 
 type dop struct {
-	Op string     `json:"op"` // "new" | "path" | "step" | "update"
+	Op string     `json:"op"` // "new" | "path" | "step" | "update" | "move" (MoveTo(model node ch[0][0]))
 	Ch [][3]int64 `json:"ch,omitempty"`
 }
 
@@ -107,6 +112,9 @@ func replayDHist(in *core.Lines, args []string, seed int64, sum *core.Summary) e
 				f = func() { d.Path() }
 			case "step":
 				f = func() { d.Step(); d.Here().ID() }
+			case "move":
+				to := simple.Node(h.IDs[op.Ch[0][0]-1])
+				f = func() { d.MoveTo(to); d.Here().ID() }
 			case "update":
 				var es []graph.Edge
 				for _, c := range op.Ch {
@@ -400,9 +408,66 @@ func recordDStar(out *core.Out, args []string, seed int64, sum *core.Summary) er
 			}
 			continue
 		}
+		// moveTo logs one MoveTo call (kind "plan": a node of the planner's Path(); "jump": any node)
+		moveTo := func(to int64, kind string) bool {
+			hid, ok := hereOf(d)
+			if !ok {
+				sum.Fail(sigp+"here-panic", fmt.Sprintf("Here() panicked: the planner lost its current node (world %d of the recording, seed %d, zero=%s)", wi, seed, zero), hist)
+				return false
+			}
+			from := r2m[hid]
+			did("move", [][3]int64{{to, 0, 0}})
+			o := core.CallTimeout(limit, func() { d.MoveTo(simple.Node(ids[to-1])) })
+			if o.Hung {
+				sum.Fail(sigp+"hang", fmt.Sprintf("MoveTo did not return within %v (world %d of the recording, seed %d, zero=%s)", limit, wi, seed, zero), hist)
+				hung = true
+				return false
+			}
+			here := from
+			if !o.Panicked {
+				if hid, ok = hereOf(d); !ok {
+					sum.Fail(sigp+"here-panic", fmt.Sprintf("Here() panicked after MoveTo(model node %d) (world %d of the recording, seed %d, zero=%s)", to, wi, seed, zero), hist)
+					return false
+				}
+				here = r2m[hid]
+			}
+			out.Emit(ev{"op": "dmove", "r": "DStarLite.MoveTo", "kind": kind, "from": from, "to": to, "here": here, "goal": t + 1, "panic": o.Panicked})
+			sum.Count("movetos:"+kind, 1)
+			return !o.Panicked
+		}
+		stepped := false // a Step was taken since the planner last planned (no MoveTo then: MoveTo* Step*)
 		for round := 0; round < rounds; round++ {
+			jumped := false
+			if zero != "interior" && !stepped {
+				alive := true
+				hid, _ := hereOf(d)
+				switch r := rng.Intn(8); {
+				case r == 0 && n > 2 && r2m[hid] != int64(t+1): // moved to an arbitrary node; the update follows at once
+					// (MoveTo is not used to leave the goal, in particular not when the planner was created there)
+					to := rng.Intn(n)
+					if to == t {
+						to = (to + 1) % n
+					}
+					alive = moveTo(int64(to+1), "jump")
+					jumped = true
+				case r <= 4: // one or two MoveTo calls along the planner's own path (lastPath is its latest answer)
+					for k := 1 + rng.Intn(2); k > 0 && alive && len(lastPath) > 1; k-- {
+						j := 1
+						if len(lastPath) > 2 && rng.Intn(3) == 0 {
+							j = 2
+						}
+						alive = moveTo(r2m[lastPath[j].ID()], "plan") && logPath()
+					}
+				}
+				if hung {
+					return nil
+				}
+				if !alive {
+					break
+				}
+			}
 			// zero families: one update in three comes without a step in between
-			if zero == "none" || rng.Intn(3) != 0 {
+			if !jumped && (zero == "none" || rng.Intn(3) != 0) {
 				hid, ok := hereOf(d)
 				if !ok {
 					sum.Fail(sigp+"here-panic", fmt.Sprintf("Here() panicked: the planner lost its current node (world %d of the recording, seed %d, zero=%s)", wi, seed, zero), hist)
@@ -426,6 +491,7 @@ func recordDStar(out *core.Out, args []string, seed int64, sum *core.Summary) er
 				}
 				out.Emit(ev{"op": "dstep", "r": "DStarLite.Step", "from": from, "here": here, "goal": t + 1, "ret": ret, "panic": o.Panicked})
 				sum.Count("steps", 1)
+				stepped = stepped || ret
 				if o.Panicked {
 					break
 				}
@@ -493,6 +559,21 @@ func recordDStar(out *core.Out, args []string, seed int64, sum *core.Summary) er
 					change(u, v, newCost(u, v), &changes, &chrec)
 				}
 			}
+			if len(changes) == 0 && jumped {
+				// the planner must plan again before it is asked anything: change one existing edge
+			pick:
+				for u := 0; u < n; u++ {
+					for v := 0; v < n; v++ {
+						if c, ok := w[[2]int{u, v}]; ok && c != removed && v != t && u != t {
+							change(u, v, c+1, &changes, &chrec)
+							break pick
+						}
+					}
+				}
+				if len(changes) == 0 {
+					break // no edge to change: the history ends here, nothing more is asked
+				}
+			}
 			if len(changes) == 0 {
 				continue
 			}
@@ -508,6 +589,7 @@ func recordDStar(out *core.Out, args []string, seed int64, sum *core.Summary) er
 				sum.Fail(sigp+"update", fmt.Sprintf("UpdateWorld panicked: %s (world %d seed %d)", o.Text, wi, seed), hist)
 				break
 			}
+			stepped = false
 			if !logPath() {
 				if hung {
 					return nil
@@ -526,9 +608,12 @@ func recordDStar(out *core.Out, args []string, seed int64, sum *core.Summary) er
 // Manhattan distance times the minimum base cost, or the distance in the base world, or null;
 // its table is logged in the "dnew" event and ShortestPathTrace.tla accepts it only if it is
 // consistent and dominated by the edge costs of every world of the history. Histories have the
-// form plan -> Step k times -> UpdateWorld(raise an edge of the planner's current plan, lower an
-// edge off the plan) -> Path -> ... The choice of the changes uses the planner's own answer
-// (test-input selection); nothing is judged here.
+// form plan -> moves -> UpdateWorld(raise an edge of the planner's current plan, lower an
+// edge off the plan) -> Path -> ... where the moves of an epoch are MoveTo^a Step^b (MoveTo to the
+// node one or two edges ahead on the planner's own Path(), which is logged again after every
+// MoveTo) or one MoveTo to an arbitrary node, after which the update comes at once and carries
+// at least one change. The choice of the changes and of the MoveTo targets uses the planner's
+// own answer (test-input selection); nothing is judged here.
 
 func init() {
 	core.RegisterRecord("path-dstar-grid", recordDStarGrid)
@@ -668,19 +753,60 @@ func recordDStarGrid(out *core.Out, args []string, seed int64, sum *core.Summary
 			sum.Count("steps", 1)
 			return ret, !o.Panicked
 		}
+		moveTo := func(to int64, kind string) bool {
+			from := model(d.Here().ID())
+			o := core.CallTimeout(limit, func() { d.MoveTo(simple.Node(id(int(to - 1)))) })
+			if o.Hung {
+				sum.Fail("path:DStarLite:hang", fmt.Sprintf("MoveTo did not return (history %d seed %d)", hi, seed), nil)
+				return false
+			}
+			here := from
+			if !o.Panicked {
+				here = model(d.Here().ID())
+			}
+			out.Emit(ev{"op": "dmove", "r": "DStarLite.MoveTo", "kind": kind, "from": from, "to": to, "here": here, "goal": t + 1, "panic": o.Panicked})
+			sum.Count("movetos:"+kind, 1)
+			return !o.Panicked
+		}
 		if !logPath() {
 			continue
 		}
 		alive := true
 		for round := 0; round < rounds && alive; round++ {
-			for k := 1 + rng.Intn(2); k > 0 && alive; k-- {
+			// the moves of this epoch: MoveTo^a Step^b, or one MoveTo to an arbitrary node
+			a, b, jumped := 0, 1+rng.Intn(2), false
+			switch r := rng.Intn(6); {
+			case r == 0:
+				a, b, jumped = 0, 0, true
+			case r <= 3:
+				a = 1 + rng.Intn(2)
+				b = rng.Intn(2)
+			}
+			if jumped {
+				to := rng.Intn(n)
+				if to == t {
+					to = (to + 1) % n
+				}
+				if !moveTo(int64(to+1), "jump") {
+					alive = false
+					break
+				}
+			}
+			for ; a > 0 && alive && len(lastPath) > 1; a-- { // lastPath: the planner's latest answer, from here
+				j := 1
+				if len(lastPath) > 2 && rng.Intn(3) == 0 {
+					j = 2
+				}
+				alive = moveTo(model(lastPath[j].ID()), "plan") && logPath()
+			}
+			for k := b; k > 0 && alive; k-- {
 				ret, ok := step()
 				alive = ret && ok
 			}
 			if !alive || model(d.Here().ID()) == int64(t+1) {
 				break
 			}
-			if !logPath() {
+			if !jumped && !logPath() {
 				alive = false
 				break
 			}
@@ -709,7 +835,7 @@ func recordDStarGrid(out *core.Out, args []string, seed int64, sum *core.Summary
 			if len(dns) > 0 {
 				flip(dns[rng.Intn(len(dns))])
 			}
-			if rng.Intn(4) == 0 {
+			if rng.Intn(4) == 0 || (jumped && len(changes) == 0) {
 				flip(rng.Intn(len(es)))
 			}
 			if len(changes) == 0 {
